@@ -247,7 +247,8 @@ Section BotOps.
     cmp := top_cmp;
     eqb := top_eqb;
     isbot := fun a => match a with None => false | Some v => isbot LV v end;
-    istop := fun a => match a with None => true | Some v => istop LV v end;
+    (* after the fix "WithTop::is_top reports only the adjoined top" *)
+    istop := fun a => match a with None => true | Some _ => false end;
   |}.
 End BotOps.
 
